@@ -287,6 +287,7 @@ def do_match(ex, cre, subj, mode, node):
         return VMatch(VStr(z3.String(ex.fresh_name('m0'))), [], cre.groupnames)
     groups = {}
     whole = decompose(ex, cre.items, cre.flags, groups)
+    greedy_last_occurrence(ex, cre, groups)
     tail = z3.String(ex.fresh_name('tail'))
     ex.assume(z3.InRe(tail, cre.tail_re(mode == 'fullmatch')))
     if mode == 'search' and not cre.begin:
@@ -296,6 +297,31 @@ def do_match(ex, cre, subj, mode, node):
         ex.assume(subj.t == z3.Concat(whole, tail))
     gl = [groups.get(i + 1, NONE) for i in range(cre.ngroups)]
     return VMatch(VStr(whole), gl, cre.groupnames)
+
+
+def _is_dotstar_group(item):
+    op, av = item
+    if op is not sre_c.SUBPATTERN or av[0] is None or len(av[3]) != 1:
+        return False
+    o2, a2 = av[3][0]
+    return o2 is sre_c.MAX_REPEAT and a2[0] == 0 and a2[1] is sre_c.MAXREPEAT and \
+        len(a2[2]) == 1 and a2[2][0][0] is sre_c.ANY
+
+
+def greedy_last_occurrence(ex, cre, groups):
+    """Exact greedy semantics for the shape  (.*) LITERAL+ (.*) : the literal text
+    matched is its LAST occurrence, i.e. no occurrence starts later."""
+    it = cre.items
+    if len(it) < 3 or not _is_dotstar_group(it[0]) or not _is_dotstar_group(it[-1]):
+        return
+    mid = it[1:-1]
+    if not all(op is sre_c.LITERAL for op, _ in mid) or (cre.flags & re.IGNORECASE):
+        return
+    lit = ''.join(chr(av) for _, av in mid)
+    g2 = groups.get(it[-1][1][0])
+    if not isinstance(g2, VStr):
+        return
+    ex.assume(z3.Not(z3.Contains(z3.Concat(z3.StringVal(lit[1:]), g2.t), z3.StringVal(lit))))
 
 
 def get_flags(ex, v):
